@@ -74,7 +74,6 @@ def handleCss (toks : List String) : String :=
     match Css.doAddCss (cps.map Char.ofNat) with
     | .ok rules => "ok " ++ esc (Css.showRules "Author rules:" rules)
     | .err => "err"
-    | .panic => "panic"
     | .hang => "hang"
 
 def optCss : P (Option (List Char)) := do
